@@ -20,7 +20,7 @@ func (p *Program) scopeProvenance(fd *ast.FuncDecl, e ast.Expr, depth int) (bool
 		return false, "call chain too deep"
 	}
 	e = ast.Unparen(e)
-	if f := selField(info, e); f != nil && f.Name() == "scope" {
+	if f := selField(info, e); f != nil && fldName(f) == "scope" {
 		return true, "ctx.scope"
 	}
 	obj, _ := objOf(info, e).(*types.Var)
@@ -132,7 +132,7 @@ func ruleC06(p *Program, r *Run) {
 			if !ok {
 				return true
 			}
-			if f := selField(info, ix.X); f == nil || f.Name() != "scope" || !strings.HasSuffix(TypeStr(info.TypeOf(ast.Unparen(ix.X).(*ast.SelectorExpr).X)), "exprContext") {
+			if f := selField(info, ix.X); f == nil || fldName(f) != "scope" || !strings.HasSuffix(TypeStr(info.TypeOf(ast.Unparen(ix.X).(*ast.SelectorExpr).X)), "exprContext") {
 				return true
 			}
 			lookups++
